@@ -59,11 +59,31 @@ def cases(tier, seed, rnd):
     cs.append(dict(k='ro'))
     cs.append(dict(k='mix'))
     cs.append(dict(k='illegal'))
+    # what the user SEES of a declared dependence: values and coefficient tables read back per scenario / event
+    for ns, labels in ((3, None), (3, ['a', 'b', 'c'])) + (((4, None),) if tier != 'quick' else ()):
+        cs.append(dict(k='readback', ns=ns, labels=labels))
     return cs
 
 
 def run_case(case, ses):
-    {'xh': run_xh, 'dro': run_dro, 'ro': run_ro, 'mix': run_mix, 'illegal': run_illegal}[case['k']](case, ses)
+    {'xh': run_xh, 'dro': run_dro, 'ro': run_ro, 'mix': run_mix, 'illegal': run_illegal,
+     'readback': run_readback}[case['k']](case, ses)
+
+
+def run_readback(case, ses):
+    """The declared dependence as it is read back: for every adapt() history of the partition family, x.get() per scenario
+    is the value of the scenario's event, x.get(z) per scenario is the coefficient table of that scenario's rule (same
+    obligations as the dro layer of C12, run on the event-wise family; a wrong table shows an event-wise decision with the
+    rule of ANOTHER event)."""
+    from . import c12
+    n0 = len(ses.findings)
+    with c12.sparse_object_matmul():
+        c12.run_dro(dict(k='dro', ns=case['ns'], labels=case['labels']), ses)
+    for f in ses.findings[n0:]:
+        f['data'] = dict(k='delegate', replayer=f['replayer'], data=f['data'])
+        f['replayer'] = 'rsv.props.c13:replay'
+        f['key'] = 'C13:' + f['key']
+        f['what'] = '[read-back of the declared dependence] ' + f['what']
 
 
 # ------------------------------------------------------------------ (a) CrossHair
@@ -658,6 +678,10 @@ def run_illegal(case, ses):
 
 
 def replay(data, verbose=False):
+    if data['k'] == 'delegate':
+        import importlib
+        modname, fn = data['replayer'].split(':')
+        return getattr(importlib.import_module(modname), fn)(data['data'], verbose=verbose)
     if data['k'] == 'xh':
         sys.path.insert(0, ROOT)
         from rsv.xh import kernels
